@@ -22,6 +22,7 @@ fn main() {
     match args[1].as_str() {
         "abs" => abs::run(&args[2..]),
         "replay" => abs::run_replay(&args[2..]),
+        "bfreplay" => abs::run_bfreplay(&args[2..]),
         "repl" => repl::run(&args[2..]),
         "golden" => checks::golden(&args[2..]),
         "matrix" => matrix::run(&args[2..]),
